@@ -163,6 +163,14 @@ def gen_save(tier, seed):
             yield {'spec': spec, 'units': units[(k + 1) % len(units)], 'time_dtype': 'float64'}
         if k % 3 == 1:
             yield {'spec': spec, 'units': units[(k + 2) % len(units)], 'snapshot': True}
+        if k % 3 == 2:
+            yield {'spec': spec, 'units': units[k % len(units)], 'encoding_override': True}
+
+
+def raw_values(path, name):
+    with netCDF4.Dataset(path) as nc:
+        nc.set_auto_maskandscale(False)
+        return numpy.array(nc.variables[name][...])
 
 
 def raw_attrs(path):
@@ -199,9 +207,16 @@ def test_save(inp):
         conv = type(orig.ems).__name__
         before = raw_attrs(src)
         out = os.path.join(tmp, 'out.nc')
-        must(lambda: orig.ems.to_netcdf(out), f'ems.to_netcdf with time units {inp["units"]!r}')
+        kw = {}
+        if inp.get('encoding_override') and tname is not None and not inp.get('snapshot'):
+            # the caller asks for other units on disk than the ones remembered from the source file
+            kw['encoding'] = {tname: {'units': 'seconds since 1970-01-01 00:00:00'}}
+        must(lambda: orig.ems.to_netcdf(out, **kw), f'ems.to_netcdf with time units {inp["units"]!r} {kw}')
         after = raw_attrs(out)
-        back = emsarray.open_dataset(out)
+        try:
+            back = emsarray.open_dataset(out)
+        except Exception as e:
+            return f'the saved file cannot be reopened: {type(e).__name__}: {str(e)[:200]}'
         try:
             if type(back.ems).__name__ != conv:
                 return f'reopened file detected as {type(back.ems).__name__}, was {conv}'
@@ -227,6 +242,8 @@ def test_save(inp):
                 if not same:
                     return f'{k}: values differ after save / reopen'
             for name, attrs in after.items():
+                if kw and name == tname:
+                    continue        # the caller replaced the encoding of this variable (xarray: the encoding argument replaces, it does not merge)
                 if '_FillValue' in before.get(name, {}) and ('_FillValue' not in attrs or not numpy.array_equal(
                         numpy.asarray(attrs['_FillValue'], dtype=float), numpy.asarray(before[name]['_FillValue'], dtype=float), equal_nan=True)):
                     return f'{name}: the _FillValue attribute of the source ({before[name]["_FillValue"]!r}) was lost or changed ({attrs.get("_FillValue")!r})'
@@ -236,8 +253,20 @@ def test_save(inp):
                 u = after[tname].get('units')
                 if not FORM.fullmatch(u):
                     return f'saved time units {u!r} not in the EMS form'
-                if cftime.num2pydate(0, u, 'proleptic_gregorian') != cftime.num2pydate(0, before[tname]['units'], 'proleptic_gregorian'):
+                if not kw and cftime.num2pydate(0, u, 'proleptic_gregorian') != cftime.num2pydate(0, before[tname]['units'], 'proleptic_gregorian'):
                     return f'saved time units {u!r} denote another instant than {before[tname]["units"]!r}'
+                # the numbers stored in the file, read with the units stored next to them, are the instants of the dataset
+                with netCDF4.Dataset(out) as nc:
+                    nc.set_auto_maskandscale(False)
+                    raw = numpy.atleast_1d(nc.variables[tname][...])
+                    cal = getattr(nc.variables[tname], 'calendar', 'proleptic_gregorian')
+                got_t = [cftime.num2date(float(x), u, cal) for x in raw.ravel()]
+                want_t = [cftime.num2date(float(x), before[tname]['units'], before[tname].get('calendar', 'proleptic_gregorian'))
+                          for x in numpy.atleast_1d(raw_values(src, tname)).ravel()]
+                if inp.get('snapshot'):
+                    want_t = want_t[:1]
+                if len(got_t) != len(want_t) or any(abs((a - b).total_seconds()) > 1e-3 for a, b in zip(got_t, want_t)):
+                    return f'the instants stored in the saved file (units {u!r}) differ from those of the dataset'
         finally:
             back.close()
             orig.close()
